@@ -38,6 +38,10 @@ Shape(args, explicitInit, parents, nf, ms, order) ==
 Shapes ==
     { Shape(CArgs(s), FALSE, ps, nf, ms, order) : s \in {x \in ArgSeqs : ValidArgs(x)}, ps \in ParentChoices(TRUE), nf \in 0..2, ms \in MethodSets, order \in {"fm", "mf"} }
     \cup { Shape(<<>>, TRUE, ps, nf, ms, order) : ps \in ParentChoices(FALSE), nf \in 0..2, ms \in MethodSets, order \in {"fm", "mf"} }
+\* type refinement as in the README: the class arguments start with an explicit `self: Base1` (and Base1 is a parent)
+SelfShapes == { [sh EXCEPT !.args = <<CArg("self", FALSE, TRUE, "Base1", Absent)>> \o sh.args]
+                : sh \in { Shape(CArgs(s), FALSE, ps, nf, ms, "fm") : s \in {x \in ArgSeqs : ValidArgs(x)},
+                            ps \in {<<Parent("Base1", <<>>)>>}, nf \in {0, 2}, ms \in {{}, {1, 3}} } }
 WellFormedShape(c) == \A j \in 1..Len(c.parents) : \A a \in 1..Len(c.parents[j].args) :
                           c.parents[j].args[a].k = "var" => Len(c.args) >= 1
 \* every operator, in its symbol form and under its dunder name, alone and paired with its neighbour (members keyed by emitted name)
@@ -49,7 +53,7 @@ OpNames == (SymOps \ {"<="}) \cup DunderNames          \* ("def <=" is not expre
 OpClasses == { Class("K", <<>>, <<>>, <<>>, <<OpM(n)>>) : n \in OpNames }
              \cup { Class("K", <<>>, <<>>, <<>>, <<OpM(a), OpM(b)>>) : a \in {"<", "__lt__", ">", "__gt__", "=", "+"}, b \in {"__le__", "__ge__", "__ne__", "__eq__", "-"} }
 OpCases == { [prop |-> "C17", kind |-> "operator-names", ctx |-> <<>>, hoist |-> FALSE, prog |-> Prog(<<c>>)] : c \in OpClasses }
-Cases == OpCases \cup { [prop |-> "C17", kind |-> "class-shape", ctx |-> <<>>, hoist |-> FALSE, prog |-> Prog(<<Base1, Base2>> \o TopFuns \o <<c>>)] : c \in {x \in Shapes : WellFormedShape(x)} }
+Cases == OpCases \cup { [prop |-> "C17", kind |-> "class-shape", ctx |-> <<>>, hoist |-> FALSE, prog |-> Prog(<<Base1, Base2>> \o TopFuns \o <<c>>)] : c \in {x \in Shapes \cup SelfShapes : WellFormedShape(x)} }
 VARIABLE c
 Init == Part = "shapes" /\ c \in Cases
 Next == UNCHANGED c
